@@ -3,6 +3,7 @@ from __future__ import annotations
 import json, warnings
 import numpy as np
 from .. import core, gen
+from . import c20_stretch as cs
 
 ID = 'C20'
 FOUNDATIONS = ['harness.foundation.pybody']   # stretchCore / capHi (stretchList) are tied to the current body of stretch.stretch
@@ -12,7 +13,7 @@ RULE = ('corpus; RGB lattice with 52 steps per channel (thorough: all 140608 tri
         'transfer-function knee (10.31475/255) and real-valued ramps at distance > 1e-6 from it; random triples; '
         'uint8/uint16/int32/float32/float64 inputs and dtype= requests; stretch/stretch_rgb: random, constant and '
         'two-valued images of 11 integer + 2 float dtypes x all three call forms x (min,max,dtype) requests inside the '
-        'dtype range; as_rgb: channels None / number / array of 8 dtypes, each array channel = stretch(channel). Non-trivial = not all-black / not constant; distinct = distinct protocol line.')
+        'dtype range; as_rgb: channels None / number / array of 8 dtypes, each array channel = stretch(channel); call-level Lean model (argument decoding, dtype cast, stretch_rgb split, as_rgb incl. 1-D/N-D channels and its errors); dtype handling of the colour conversions (9 input dtypes x 12 dtype= requests, round-robin); size-threshold stream (tag size=threshold): 6 cases per run whose pixel count crosses 2^8, 2^15, 2^16 (+-1) with value ranges crossing 2^8 / 2^16 / 2^31 (stretch, stretch_rgb, as_rgb, the colour conversions on > 2^16 pixels incl. int32 values > 65535), judged like the small cases with the Lean driver (one image per protocol line); thorough adds two 2^24+1-pixel stretch images judged by the exact numpy-float64 oracle _stretch_oracle, whose bit-for-bit agreement with the Lean driver is established on every ordinary stretch case (stretch:oracle-vs-lean). Non-trivial = not all-black / not constant; distinct = distinct protocol line.')
 ASSUMPTIONS = ['channel values lie in [0,255]; no NaN/inf',
                'a*, b* of greys: the 4-digit sRGB matrix (rows sum to (0.9505, 1, 1.089)) and the 5-digit white point of the '
                'standards do not agree further; Lean (C20_lab_grey_bound, over the reals) proves 0 <= a* <= 500/95047 = 0.00526 '
@@ -175,7 +176,7 @@ def _eval_rgb(case):
                 if o.dtype != np.dtype(dt):
                     f.append(dict(kind='property', key=f'{fn}:dtype', detail=dict(requested=dt, got=str(o.dtype))))
     return dict(findings=f, nontrivial=bool(np.any(vals != 0)), sig=('rgb', case.get('dtype'), hash(vals.tobytes())),
-                n=n, tags=dict(kind='rgb', dtype=case.get('dtype', 'uint8'), cls=case.get('cls', 'random')))
+                n=n, tags=dict(kind='rgb', dtype=case.get('dtype', 'uint8'), cls=case.get('cls', 'random'), size=case.get('size', 'small')))
 
 
 def _eval_rgbimg(case):
@@ -239,7 +240,104 @@ def _eval_rgbimg(case):
                         f.append(dict(kind='property', key='rgb2lab:grey', detail=dict(
                             dtype=dt, rgb=T[greyrow][int(bad[0])].tolist(), got=L[greyrow][int(bad[0])].tolist(), want='a*=b*=0')))
     return dict(findings=f, nontrivial=bool(h > 1 and w > 1), sig=('rgbimg', json.dumps(case, sort_keys=True)),
-                tags=dict(kind='rgbimg', dtype=case.get('dtype', 'uint8'), layout=case.get('layout', 'C'), out=case.get('out', '-')))
+                tags=dict(kind='rgbimg', dtype=case.get('dtype', 'uint8'), layout=case.get('layout', 'C'), out=case.get('out', '-'),
+                          size=case.get('size', 'small')))
+
+
+DT_IN = ['uint8', 'uint16', 'uint32', 'uint64', 'int16', 'int32', 'int64', 'float32', 'float64']
+DT_OUT = ['uint8', 'uint16', 'uint32', 'int8', 'int16', 'int32', 'int64', 'float16', 'float32', 'float64', 'pyfloat']
+
+
+def _eval_dtypes(case):
+    """dtype handling of the colour conversions (every input dtype x every `dtype=` request):
+    (1) an integer image is converted to double first: every conversion of it is bit-identical to the conversion of
+        `img.astype(float64)` (also integer XYZ images for xyz2lab / xyz2rgb);
+    (2) a `dtype=` request returns that dtype and is exactly `astype(dtype)` of the float64 result
+        (rgb2xyz, rgb2lab, rgb2grey, xyz2lab, xyz2rgb); xyz2rgb(rgb2xyz(c), dtype=integer) returns c or c - 1
+        (truncation of a value within 0.0764 of c), a float dtype returns c within the round-trip tolerance;
+    (3) the Lean model fed with the *integers* (it converts them itself, `Float.ofInt`) agrees with the real doubles
+        (1e-12 / 1e-9) and, for integer requests, with the real integers wherever the model value is not within 1e-6
+        of an integer (libm's pow is only compared at 1e-9);
+    (4) `rgb2gray` is `rgb2grey`."""
+    c = _colors()
+    vals = [int(v) for v in case['rgb']]
+    n = len(vals) // 3
+    A = np.array(vals, dtype=np.int64).reshape(n, 1, 3).astype(case['dtype'])
+    Af = A.astype(np.float64)
+    before = A.copy()
+    out = case.get('out')
+    odt = None if out is None else (float if out == 'pyfloat' else np.dtype(out))
+    ndt = None if out is None else np.dtype(np.float64 if out == 'pyfloat' else out)
+    f = []
+    with warnings.catch_warnings(), np.errstate(all='ignore'):
+        warnings.simplefilter('ignore')
+        if c.rgb2gray is not c.rgb2grey:
+            f.append(dict(kind='property', key='rgb2gray:alias', detail={}))
+        res = {}
+        for fn in ('rgb2xyz', 'rgb2lab', 'rgb2grey', 'rgb2sepia'):
+            g = getattr(c, fn)
+            res[fn] = np.asarray(g(A))
+            ref = np.asarray(g(Af))
+            if A.dtype.kind in 'iu' and not (res[fn].dtype == ref.dtype and np.array_equal(res[fn], ref)):
+                f.append(dict(kind='property', key=f'{fn}:integer-input', detail=dict(dtype=case['dtype'])))
+        xyz = res['rgb2xyz'].astype(np.float64)
+        res['xyz2rgb'] = np.asarray(c.xyz2rgb(xyz))
+        res['xyz2lab'] = np.asarray(c.xyz2lab(xyz))
+        # integer XYZ images (0, 1, 2 — only the dtype handling matters)
+        Xi = (np.array(vals, dtype=np.int64).reshape(n, 1, 3) % 3).astype(case['dtype'] if A.dtype.kind in 'iu' else 'int32')
+        for fn in ('xyz2lab', 'xyz2rgb'):
+            a1, a2 = np.asarray(getattr(c, fn)(Xi)), np.asarray(getattr(c, fn)(Xi.astype(np.float64)))
+            if not (a1.dtype == a2.dtype and np.array_equal(a1, a2, equal_nan=True)):
+                f.append(dict(kind='property', key=f'{fn}:integer-input', detail=dict(dtype=str(Xi.dtype))))
+        if ndt is not None:
+            for fn, src in (('rgb2xyz', A), ('rgb2lab', A), ('rgb2grey', A), ('xyz2lab', xyz), ('xyz2rgb', xyz)):
+                o = np.asarray(getattr(c, fn)(src, dtype=odt))
+                if o.dtype != ndt:
+                    f.append(dict(kind='property', key=f'{fn}:dtype', detail=dict(requested=out, got=str(o.dtype))))
+                    continue
+                want = res[fn].astype(ndt)
+                if fn == 'xyz2rgb' and ndt != np.int8:      # (int8 cannot hold 0..255: only `astype` is compared)
+                    T = np.array(vals, dtype=np.float64).reshape(o.shape)
+                    of = o.astype(np.float64)
+                    if ndt.kind in 'iu':
+                        ok = bool(np.all((of == T) | (of == T - 1)))
+                    else:
+                        ok = bool(np.all(np.abs(of - T) <= RT_TOL + (0.13 if ndt == np.float16 else 0.0)))
+                    if not ok:
+                        j = int(np.argmax(np.abs(of - T).ravel()))
+                        f.append(dict(kind='property', key='xyz2rgb:roundtrip', detail=dict(
+                            dtype=out, rgb=T.reshape(-1, 3)[j // 3].tolist(), back=of.reshape(-1, 3)[j // 3].tolist())))
+                        continue
+                if not np.array_equal(o, want, equal_nan=True):
+                    f.append(dict(kind='model', key=f'{fn}:dtype-is-not-astype', detail=dict(requested=out)))
+    if not (np.array_equal(before, A) and before.dtype == A.dtype):
+        f.append(dict(kind='property', key='colors:input-modified', detail={}))
+    # (3) the Lean model on the integers
+    skipped = 0
+    if not f and A.dtype.kind in 'iu':
+        name = cs.DT_NAME.get(ndt.name, 'i64') if (ndt is not None and ndt.kind in 'iu') else 'i64'
+        drv = core.drive([f'c20 kind=rgbint rgb={core.fmt_ints(vals)} out={name}'])[0]
+        for key, fn, tol in (('xyz', 'rgb2xyz', TOL['xyz']), ('lab', 'rgb2lab', TOL['lab']), ('back', 'xyz2rgb', TOL['back']),
+                             ('grey', 'rgb2grey', TOL['grey'])):
+            m = core.floats(drv[key])
+            e, i = _maxerr(res[fn], m)
+            if e > tol:
+                f.append(dict(kind='model', key=f'{fn}:model-integer-input', detail=dict(err=e, index=i)))
+            elif ndt is not None and ndt.kind in 'iu' and (ndt.kind == 'i' or fn != 'rgb2lab') and \
+                    (ndt != np.int8 or fn in ('rgb2xyz', 'rgb2lab')):      # only values inside the dtype's range
+                src = A if fn != 'xyz2rgb' else xyz
+                with warnings.catch_warnings(), np.errstate(all='ignore'):
+                    warnings.simplefilter('ignore')
+                    o = np.asarray(getattr(c, fn)(src, dtype=odt)).ravel()
+                mi = core.ints(drv[key + 'int'])
+                for k in range(len(mi)):
+                    if abs(m[k] - round(m[k])) <= 1e-6:
+                        skipped += 1
+                    elif int(o[k]) != mi[k]:
+                        f.append(dict(kind='model', key=f'{fn}:model-dtype-cast', detail=dict(index=k, got=int(o[k]), model=mi[k])))
+                        break
+    return dict(findings=f, nontrivial=bool(any(vals)), sig=('dtypes', json.dumps(case, sort_keys=True)), n=n,
+                tags=dict(kind='dtypes', dtype=case['dtype'], out=out or '-', near_integer_skipped=min(skipped, 1)))
 
 
 def _eval_ramp(case):
@@ -284,6 +382,56 @@ def _dt_bounds(dt):
     return (-2 ** 24, 2 ** 24) if dt == np.float32 else (-2 ** 40, 2 ** 40)   # exactly representable bounds
 
 
+def _stretch_oracle(xv, lo, hi):
+    """exact O(N) transliteration of the Lean `stretchList` at Float in numpy float64 (same operations in the same
+    order: `(x - mn) * ((hi - lo) / ptp) + lo`, capped at `hi`; constant image -> `lo`). Its bit-for-bit agreement
+    with the Lean driver is checked on every ordinary stretch case (`stretch:oracle-vs-lean`); the size-threshold
+    cases too large for the protocol (2^24 + 1 pixels, thorough tier) are judged by it alone."""
+    x = np.asarray(xv, np.float64)
+    mn = x.min()
+    sh = x - mn
+    ptp = sh.max()
+    if not ptp > 0:
+        return np.full(x.shape, float(lo))
+    y = sh * ((float(hi) - float(lo)) / ptp) + float(lo)
+    if hi >= lo:
+        y = np.where(float(hi) < y, float(hi), y)
+    return y
+
+
+def _eval_stretch_big(case):
+    """a 1 x N image too large for the driver protocol: the statement's observables directly + the exact oracle"""
+    import mahotas as mh
+    g = np.random.default_rng(case['seed'])
+    n = case['n']
+    if case['dtype'].startswith('float'):
+        img = (g.random(n) * case['span'] + case['base']).astype(case['dtype']).reshape(1, n)
+    else:
+        img = (g.integers(0, case['span'] + 1, n) + case['base']).astype(case['dtype']).reshape(1, n)
+    before = img.copy()
+    lo, hi, odt = case['lo'], case['hi'], np.dtype(case['out'])
+    out = np.asarray(mh.stretch(img, lo, hi, dtype=odt))
+    f = []
+    if not np.array_equal(before, img):
+        f.append(dict(kind='property', key='stretch:input-modified', detail={}))
+    if out.dtype != odt or out.shape != img.shape:
+        f.append(dict(kind='property', key='stretch:dtype', detail=dict(got=str(out.dtype), shape=list(out.shape))))
+    else:
+        xv = img.astype(np.float64).ravel()
+        yv = out.ravel()
+        order = np.argsort(xv, kind='stable')
+        if np.any(np.diff(yv[order].astype(np.float64)) < 0):
+            f.append(dict(kind='property', key='stretch:monotone', detail=dict(n=n)))
+        if yv[int(np.argmin(xv))] != lo:
+            f.append(dict(kind='property', key='stretch:min-to-lower-bound', detail=dict(got=float(yv[int(np.argmin(xv))]), want=lo)))
+        if yv.min() < lo or yv.max() > hi:
+            f.append(dict(kind='property', key='stretch:range', detail=dict(min=float(yv.min()), max=float(yv.max()), lo=lo, hi=hi)))
+        if not f and not np.array_equal(_stretch_oracle(xv, lo, hi).astype(odt), yv):
+            f.append(dict(kind='model', key='stretch:oracle', detail=dict(n=n)))
+    return dict(findings=f, nontrivial=True, sig=json.dumps(case, sort_keys=True),
+                tags=dict(kind='stretch', size='threshold', dtype=case['dtype'], out=case['out'], cls='2^24+1'))
+
+
 def _eval_stretch(case):
     import mahotas as mh
     img = np.array(case['data'], dtype=object).astype(case['dtype']).reshape(case['shape'])
@@ -292,17 +440,36 @@ def _eval_stretch(case):
     form = case['form']
     odt = np.dtype(case['out'])
     fn = mh.stretch_rgb if case.get('rgb') else mh.stretch
-    lo, hi = (0, 255) if form == 0 else (0, case['hi']) if form == 1 else (case['lo'], case['hi'])
+    (arg0, arg1), (lo, hi) = cs.call_args(case)
+    # how the dtype is requested: keyword with a numpy dtype (default), the Python type `float`, or not at all (uint8)
+    kw = dict(dtype=odt)
+    if case.get('dtype_as') == 'pyfloat' and odt == np.float64:
+        kw = dict(dtype=float)
+    elif case.get('dtype_as') == 'default' and odt == np.uint8:
+        kw = {}
+    err = None
     with warnings.catch_warnings():
         warnings.simplefilter('ignore')
-        if form == 0:
-            out = fn(img, dtype=odt)
-        elif form == 1:
-            out = fn(img, hi, dtype=odt)
-        else:
-            out = fn(img, lo, hi, dtype=odt)
-    out = np.asarray(out)
+        try:
+            if form == 0:
+                out = fn(img, **kw)
+            elif form == 1:
+                out = fn(img, arg0, **kw)
+            else:
+                out = fn(img, arg0, arg1, **kw)
+        except Exception as e:  # noqa: any exception on a legitimate request is reported as `stretch:raises`
+            err, out = f'{type(e).__name__}: {e}', None
     f = []
+    if case.get('rgb') and img.ndim not in (2, 3):
+        # stretch_rgb accepts 2-D and 3-D images only: the model says ValueError, so must the code
+        drv = core.drive([cs.line_stretchrgb(img, arg0, arg1, odt if odt.kind != 'f' else np.dtype('int64'))])[0]
+        f += cs.compare_rgb(drv, out, err)
+        return dict(findings=f, nontrivial=True, sig=json.dumps(case, sort_keys=True),
+                    tags=dict(kind='stretch_rgb', cls='bad-ndim', dtype=case['dtype'], out=case['out'], form=form))
+    if err is not None:
+        f.append(dict(kind='property', key='stretch:raises', detail=dict(error=err)))
+        return dict(findings=f, nontrivial=True, sig=json.dumps(case, sort_keys=True), tags=dict(kind='stretch'))
+    out = np.asarray(out)
     if not (np.array_equal(before, img) and before.dtype == img.dtype):
         f.append(dict(kind='property', key='stretch:input-modified', detail={}))
     if out.dtype != odt:
@@ -313,6 +480,15 @@ def _eval_stretch(case):
     chans = [(img[..., k], out[..., k]) for k in range(img.shape[2])] if (case.get('rgb') and img.ndim == 3) else [(img, out)]
     ftol = 0        # the scaled image is capped at max before the cast: no overshoot, for float outputs either
     nontriv = False
+    # one driver run: the arithmetic model per channel (`stretch`), then the call-level model (`stretchcall` /
+    # `stretchrgb`: argument decoding, cast to the requested dtype, per-channel split)
+    lines = [f'c20 kind=stretch data={core.fmt_floats(x.astype(np.float64).ravel())} lo={lo} hi={hi}' for x, _ in chans if x.size]
+    if case.get('rgb'):
+        call_line = cs.line_stretchrgb(img, arg0, arg1, odt) if odt.kind != 'f' else None
+    else:
+        call_line = cs.line_stretchcall(img.astype(np.float64).ravel(), arg0, arg1, odt) if img.size else None
+    drvs = core.drive(lines + ([call_line] if call_line else []))
+    drv_iter = iter(drvs[:len(lines)])
     for ci, (x, y) in enumerate(chans):
         xv = x.astype(np.float64).ravel()
         yv = y.ravel()
@@ -335,8 +511,10 @@ def _eval_stretch(case):
         if min(yl) < lo - ftol or max(yl) > hi + ftol:
             f.append(dict(kind='property', key='stretch:range', detail=dict(channel=ci, lo=lo, hi=hi, min=min(yl), max=max(yl))))
         # correspondence with the Lean model (Float, same operation order): bit-exact before the cast
-        drv = core.drive([f'c20 kind=stretch data={core.fmt_floats(xv)} lo={lo} hi={hi}'])[0]
+        drv = next(drv_iter)
         mf = core.floats(drv['float'])
+        if not np.array_equal(_stretch_oracle(xv, lo, hi), mf):
+            f.append(dict(kind='model', key='stretch:oracle-vs-lean', detail=dict(channel=ci)))
         with np.errstate(all='ignore'):
             mcast = mf.astype(odt) if odt != np.bool_ else None
         if mcast is not None and not f:
@@ -352,9 +530,15 @@ def _eval_stretch(case):
                 # rational values of the same doubles: must agree with the Float cast `truncF`
                 elif 'intq' in drv and core.ints(drv['intq']) != mi:
                     f.append(dict(kind='model', key='stretch:model-truncq', detail=dict(channel=ci)))
+    if call_line and not f:
+        if case.get('rgb'):
+            f += cs.compare_rgb(drvs[-1], out, None)
+        else:
+            f += cs.compare_call(drvs[-1], out, odt, lo, hi)
     return dict(findings=f, nontrivial=nontriv, sig=json.dumps(case, sort_keys=True),
                 tags=dict(kind='stretch_rgb' if case.get('rgb') else 'stretch', dtype=case['dtype'], out=case['out'],
-                          form=form, layout=case.get('layout', 'C'), cls=case.get('cls', 'random')))
+                          form=form, layout=case.get('layout', 'C'), cls=case.get('cls', 'random'),
+                          dtype_as=case.get('dtype_as', 'numpy-dtype'), size=case.get('size', 'small')))
 
 
 def _eval_asrgb(case):
@@ -369,13 +553,24 @@ def _eval_asrgb(case):
         elif spec['t'] == 'scalar':
             chans.append(spec['v'])
         else:
-            chans.append(np.array(spec['data'], dtype=object).astype(spec['dtype']).reshape(shape))
+            chans.append(np.array(spec['data'], dtype=object).astype(spec['dtype']).reshape(tuple(spec.get('shape', shape))))
         befores.append(None if not isinstance(chans[-1], np.ndarray) else chans[-1].copy())
+    err = None
     with warnings.catch_warnings():
         warnings.simplefilter('ignore')
-        out = np.asarray(mh.as_rgb(*chans))
-    f = []
+        try:
+            out = np.asarray(mh.as_rgb(*chans))
+        except (ValueError, AttributeError) as e:
+            err, out = f'{type(e).__name__}: {e}', None
+    # the Lean model of the whole call (Model/C20Stretch.lean `asRgb`): which argument fixes the shape, ValueErrors,
+    # None / number / array channels, np.dstack's shape rules for 1-D, 2-D and N-D channels
+    f = cs.compare_asrgb(core.drive([cs.line_asrgb(chans)])[0], out, err)
     nontriv = False
+    if err is not None or case.get('cls') in ('error', 'nd'):
+        if err is not None and case.get('cls') != 'error':
+            f.append(dict(kind='property', key='as_rgb:raises', detail=dict(error=err)))
+        return dict(findings=f, nontrivial=True, sig=json.dumps(case, sort_keys=True),
+                    tags=dict(kind='as_rgb', cls=case.get('cls', 'image'), raised=err is not None))
     if out.shape != shape + (3,) or out.dtype != np.uint8:
         f.append(dict(kind='property', key='as_rgb:shape-dtype', detail=dict(shape=list(out.shape), dtype=str(out.dtype))))
         return dict(findings=f, nontrivial=True, sig=json.dumps(case, sort_keys=True), tags=dict(kind='as_rgb'))
@@ -385,7 +580,7 @@ def _eval_asrgb(case):
             if y.any():
                 f.append(dict(kind='property', key='as_rgb:none-channel-not-zero', detail=dict(channel=k)))
         elif not isinstance(c, np.ndarray):
-            if not np.all(y == np.uint8(c)):
+            if not np.all(y == (int(c) % 256)):
                 f.append(dict(kind='property', key='as_rgb:scalar-channel', detail=dict(channel=k, value=c)))
         else:
             if not (np.array_equal(b0, c) and b0.dtype == c.dtype):
@@ -405,10 +600,43 @@ def _eval_asrgb(case):
                 ref = np.asarray(mh.stretch(c))
             if not np.array_equal(ref, y):
                 f.append(dict(kind='property', key='as_rgb:channel-is-not-stretch', detail=dict(channel=k)))
-    return dict(findings=f, nontrivial=nontriv, sig=json.dumps(case, sort_keys=True), tags=dict(kind='as_rgb'))
+    return dict(findings=f, nontrivial=nontriv, sig=json.dumps(case, sort_keys=True),
+                tags=dict(kind='as_rgb', cls='image', size=case.get('size', 'small')))
+
+
+def _asrgb_special(rng):
+    """as_rgb calls outside the (h, w) image case: 1-D / 3-D channels (np.dstack's rules), channels of different
+    shapes, no array channel at all (ValueError), numbers outside 0..255 (reduced modulo 256 by the uint8 cast)"""
+    r = rng.random()
+    def arr(shape):
+        n = int(np.prod(shape))
+        return dict(t='array', dtype=rng.choice(['uint8', 'int16', 'float64']), shape=list(shape),
+                    data=[rng.randint(0, 100) for _ in range(n)])
+    if r < 0.3:
+        shape = rng.choice([[rng.randint(1, 6)], [rng.randint(1, 3), rng.randint(1, 3), rng.randint(1, 3)],
+                            [rng.randint(1, 2), rng.randint(1, 3), rng.randint(1, 2), rng.randint(1, 2)]])
+        chans = [rng.choice([None, dict(t='scalar', v=rng.randint(-300, 600)), arr(shape), arr(shape)]) for _ in range(3)]
+        if not any(c is not None and c['t'] == 'array' for c in chans):
+            chans[rng.randrange(3)] = arr(shape)
+        return dict(kind='as_rgb', cls='nd', shape=shape, chans=chans)
+    if r < 0.55:
+        chans = [rng.choice([None, None, dict(t='scalar', v=rng.randint(0, 255))]) for _ in range(3)]
+        return dict(kind='as_rgb', cls='error', shape=[1, 1], chans=chans)
+    if r < 0.8:
+        shape = [rng.randint(1, 4), rng.randint(1, 4)]
+        other = rng.choice([[shape[1] + 1, shape[0]], [shape[0] * shape[1] + 1], shape + [1], [shape[0], shape[1] + 1]])
+        chans = [arr(shape), arr(other), rng.choice([None, arr(shape), dict(t='scalar', v=3)])]
+        rng.shuffle(chans)
+        return dict(kind='as_rgb', cls='error', shape=shape, chans=chans)
+    shape = [rng.randint(1, 4), rng.randint(1, 4)]
+    chans = [arr(shape), dict(t='scalar', v=rng.choice([-1, 256, 300, -200, 1000, 255, 0])), rng.choice([None, dict(t='scalar', v=rng.randint(-1000, 1000))])]
+    rng.shuffle(chans)
+    return dict(kind='as_rgb', cls='image', shape=shape, chans=chans)
 
 
 def _asrgb_case(rng):
+    if rng.random() < 0.25:
+        return _asrgb_special(rng)
     shape = [rng.randint(1, 5), rng.randint(1, 5)]
     n = shape[0] * shape[1]
     chans = []
@@ -449,6 +677,10 @@ def evaluate(cases):
             out.append(_eval_rgbimg(c))
         elif k == 'as_rgb':
             out.append(_eval_asrgb(c))
+        elif k == 'dtypes':
+            out.append(_eval_dtypes(c))
+        elif k == 'stretch_big':
+            out.append(_eval_stretch_big(c))
         else:
             raise core.Infra(f'unknown case kind {k}')
     return out
@@ -463,7 +695,7 @@ def _corpus():
 
 LATTICE = list(range(0, 256, 5))          # 52 steps per channel
 INT_IMG_DTYPES = ['bool', 'uint8', 'uint16', 'uint32', 'uint64', 'int8', 'int16', 'int32', 'int64']
-OUT_DTYPES = ['uint8', 'uint16', 'uint32', 'int8', 'int16', 'int32', 'int64', 'uint64', 'float32', 'float64']
+OUT_DTYPES = ['uint8', 'uint16', 'uint32', 'int8', 'int16', 'int32', 'int64', 'uint64', 'float32', 'float64', 'bool']
 
 
 def _stretch_case(rng):
@@ -472,6 +704,8 @@ def _stretch_case(rng):
     if rgb:
         shape = [rng.randint(1, 4), rng.randint(1, 4), rng.choice([1, 3, 3, 4])] if rng.random() < 0.8 else \
             [rng.randint(1, 4), rng.randint(1, 5)]
+        if rng.random() < 0.04:         # neither 2-D nor 3-D: ValueError
+            shape = rng.choice([[rng.randint(1, 6)], [rng.randint(1, 3), rng.randint(1, 3), 3, rng.randint(1, 2)]])
     else:
         shape = list(gen.small_shape(rng))
     n = int(np.prod(shape))
@@ -513,12 +747,72 @@ def _stretch_case(rng):
         lo = rng.choice([blo, 0, rng.randint(blo, bhi), rng.randint(max(blo, -300), min(bhi, 300)), max(blo, -rng.randint(1, 100))])
         # (an upper bound of exactly 0 above a negative lower bound is a legitimate request, falsy in Python)
         hi = rng.choice([bhi, lo, lo + 1 if lo < bhi else lo, rng.randint(lo, bhi), rng.randint(lo, min(bhi, lo + 300)), 0 if lo <= 0 <= bhi else bhi])
-    return dict(kind='stretch', dtype=dtype, shape=shape, data=data, form=form, lo=int(lo), hi=int(hi), out=out,
-                rgb=rgb, layout=rng.choice(gen.LAYOUTS), cls=cls)
+    c = dict(kind='stretch', dtype=dtype, shape=shape, data=data, form=form, lo=int(lo), hi=int(hi), out=out,
+             rgb=rgb, layout=rng.choice(gen.LAYOUTS), cls=cls)
+    if form == 0 and rng.random() < 0.2:
+        # stretch(img, None, x): the second positional argument is ignored, the range stays (0, 255)
+        c.update(form=3, hi=int(rng.choice([0, 1, 100, 255, 1000, -5])))
+    if out == 'float64' and rng.random() < 0.5:
+        c['dtype_as'] = 'pyfloat'       # dtype=float
+    elif out == 'uint8' and rng.random() < 0.4:
+        c['dtype_as'] = 'default'       # no dtype argument
+    return c
+
+
+def _size_threshold_cases(rng, tier):
+    """size-threshold stream: pixel counts crossing 2^8, 2^15, 2^16 (+-1) with value ranges crossing 2^8 / 2^16 / 2^31
+    (a counter, index or accumulator narrowed to 16 bits or float32 passes every small case). Judged like the small
+    cases (statement's observables + Lean driver, the pixels of one image in one protocol line); thorough tier adds
+    2^24 + 1 pixels judged by the exact numpy oracle `_stretch_oracle`."""
+    def npx(k):
+        return 2 ** k + rng.choice([-1, 0, 1])
+    def spread(n, centre, span):
+        # n values around `centre`, many distinct, crossing it in both directions, in a scrambled order
+        # the global minimum and maximum sit in the last two positions (a reduction whose counter stops early misses them)
+        v = [int(centre - span // 2 + (i * 7919 + 13) % span) for i in range(n)]
+        v[-1], v[-2] = centre - span // 2 - 1, centre + span // 2 + 1
+        return v
+    out = []
+    n = npx(8)
+    out.append(dict(kind='stretch', size='threshold', dtype='int16', shape=[1, n], data=spread(n, 256, 300), form=2, lo=-128, hi=127,
+                    out='int8', rgb=False, layout='C', cls='threshold'))
+    n = npx(16)
+    dt = rng.choice(['int32', 'uint32', 'float64'])
+    shape = rng.choice([[1, n], [257, 256]])
+    n = shape[0] * shape[1]
+    data = spread(n, 65536, 80000)
+    form, lo, hi, odt = rng.choice([(2, 0, 65535, 'uint16'), (2, -70000, 70000, 'int32'), (1, 0, 65536, 'uint32'), (0, 0, 255, 'uint8')])
+    out.append(dict(kind='stretch', size='threshold', dtype=dt, shape=shape, data=[float(v) for v in data] if dt == 'float64' else data,
+                    form=form, lo=lo, hi=hi, out=odt, rgb=False, layout=rng.choice(['C', 'F', 'strided']), cls='threshold'))
+    n = npx(15)
+    data = [v for i in range(n) for v in (2 ** 31 - 40000 + (i * 7919) % 80000, 65536 - 300 + (i * 31) % 600, 255 - 100 + (i * 7) % 200)]
+    out.append(dict(kind='stretch', size='threshold', dtype='uint32', shape=[1, n, 3], data=data, form=1, lo=0, hi=65535, out='uint16',
+                    rgb=True, layout='C', cls='threshold'))
+    n = npx(16)
+    out.append(dict(kind='as_rgb', size='threshold', cls='image', shape=[1, n], chans=[
+        dict(t='array', dtype='uint16', data=[1 + (i * 7919) % 65534 for i in range(n - 2)] + [65535, 0]),
+        dict(t='array', dtype='float64', data=[float(65536 - 1000 + (i * 31) % 2000) + 0.5 for i in range(n)]),
+        rng.choice([None, dict(t='scalar', v=rng.randint(0, 255))])]))
+    # colour conversions on more than 2^16 pixels: column form against the Lean model, image form in a strided layout
+    n = 2 ** 16 + rng.choice([1, 2])
+    tri = [(i * 7919 + k * 101) % 256 for i in range(n) for k in range(3)]
+    out.append(dict(kind='rgb', size='threshold', rgb=tri, dtype=rng.choice(['uint8', 'uint16', 'int32']), cls='threshold'))
+    px = [(i * 31 + k * 57) % 256 for i in range(257 * 256) for k in range(3)]
+    for j in range(0, len(px), 3 * 4099):          # a few pixels far beyond 16 bits (the conversions are pixelwise for any value)
+        px[j] = 70000 + j % 1000
+    out.append(dict(kind='rgbimg', size='threshold', shape=[257, 256], rgb=px, dtype='int32', layout=rng.choice(['C', 'F', 'strided'])))
+    if tier == 'thorough':
+        out.append(dict(kind='stretch_big', n=2 ** 24 + 1, seed=rng.randint(0, 2 ** 31), dtype='uint8', base=0, span=255,
+                        lo=0, hi=255, out='uint8'))
+        out.append(dict(kind='stretch_big', n=2 ** 24 + 1, seed=rng.randint(0, 2 ** 31), dtype='float32', base=-1, span=2,
+                        lo=-(2 ** 24) - 1, hi=2 ** 24 + 1, out='int32'))
+    return out
 
 
 def cases(rng, tier):
     out = list(_corpus()) if tier != 'search' else []
+    if tier != 'search':
+        out += _size_threshold_cases(rng, tier)
     # always: white / black / greys and the knee
     greys = [v for g in range(256) for v in (g, g, g)]
     out.append(dict(kind='rgb', rgb=greys, dtype='uint8', cls='greys'))
@@ -581,6 +875,15 @@ def cases(rng, tier):
         if rng.random() < 0.5:
             c['out'] = rng.choice(['uint8', 'int8', 'int16', 'int32', 'int64', 'float32', 'float64', 'float16'])
         out.append(c)
+    # dtype handling: every input dtype x every dtype= request (round-robin, so that each pair occurs in every tier)
+    nd = dict(quick=len(DT_IN) * (len(DT_OUT) + 1), thorough=8 * len(DT_IN) * (len(DT_OUT) + 1), search=300)[tier]
+    for i in range(nd):
+        m = rng.randint(2, 12)
+        tri = [255, 255, 255, 0, 0, 0, 200, 100, 50] + [rng.choice([rng.randint(0, 255), rng.randint(0, 15), 255]) for _ in range(3 * m)]
+        g = rng.randint(0, 255)
+        tri += [g, g, g]
+        out.append(dict(kind='dtypes', rgb=tri, dtype=DT_IN[i % len(DT_IN)],
+                        out=([None] + DT_OUT)[(i // len(DT_IN)) % (len(DT_OUT) + 1)]))
     ns = dict(quick=1500, thorough=15000, search=6000)[tier]
     for _ in range(ns):
         out.append(_stretch_case(rng))
